@@ -108,6 +108,10 @@ fn frame20(word: &[usize], step: usize) -> Vec<Det> {
     v
 }
 
+fn assoc_dist(d: &Det, t: &Stored) -> f64 {
+    dist_in_2r(&cand_box(d), t.predicted.last().unwrap())
+}
+
 pub fn run_trackers(rep: &Report, tier: Tier) {
     let tables: Vec<(&str, Option<Vec<(usize, f32)>>, bool)> = vec![
         ("slack", Some(vec![(5, 100.0)]), true),
@@ -200,6 +204,85 @@ pub fn run_trackers(rep: &Report, tier: Tier) {
                 }
             }
         }
+    }
+    // appearance re-attachment far away: VisualSort / BatchVisualSort with features. The appearance stage has no
+    // positional gate, so a limit >= 1 (more than touching bounding circles) is the only thing that keeps a
+    // look-alike far away from a track; every continuation is judged against the limit of its epoch gap
+    {
+        let look = |x: f32| -> Vec<f32> {
+            let mut v = vec![0.0f32; 16];
+            v[0] = 1.0;
+            v[1] = x;
+            v
+        };
+        let jumps = [12.0f32, 30.0, 40.0, 60.0, 100.0, 200.0];
+        let vtables: Vec<Vec<(usize, f32)>> = vec![vec![(5, 2.0)], vec![(5, 1.2)], vec![(1, 3.0), (5, 1.5)], vec![(5, 8.0)]];
+        let mut vcalls = 0u64;
+        let mut far_continuations = 0u64;
+        for kind in [Kind::VisualSort, Kind::BatchVisualSort] {
+            for table in &vtables {
+                for pos in [Pos::Iou(0.3), Pos::Maha] {
+                    let mut cfg = TrkCfg::new(kind);
+                    cfg.pos = pos;
+                    cfg.max_idle = 3;
+                    cfg.constraints = Some(table.clone());
+                    let pc = PosCfg::of(&cfg);
+                    for &j1 in &jumps {
+                        for &j2 in &jumps {
+                            for miss in [false, true] {
+                                // frames: appear, move a little (second feature), [missed frame], jump j1, jump j2 back towards a bystander-free area
+                                let mut frames: Vec<Vec<Det>> = vec![
+                                    vec![Det::ltwh(0.0, 0.0, 10.0, 20.0).feat(&look(0.0), 0.9), Det::ltwh(-300.0, 0.0, 10.0, 20.0)],
+                                    vec![Det::ltwh(2.0, 0.0, 10.0, 20.0).feat(&look(0.05), 0.9), Det::ltwh(-300.0, 0.0, 10.0, 20.0)],
+                                ];
+                                if miss {
+                                    frames.push(vec![Det::ltwh(-300.0, 0.0, 10.0, 20.0)]);
+                                }
+                                frames.push(vec![Det::ltwh(2.0 + j1, 0.0, 10.0, 20.0).feat(&look(0.1), 0.9), Det::ltwh(-300.0, 0.0, 10.0, 20.0)]);
+                                frames.push(vec![Det::ltwh(2.0 + j1, j2, 10.0, 20.0).feat(&look(0.02), 0.9), Det::ltwh(-300.0, 0.0, 10.0, 20.0)]);
+                                let c2 = cfg.clone();
+                                let pc2 = PosCfg { pos: pc.pos, min_conf: pc.min_conf, max_idle: pc.max_idle, constraints: pc.constraints.clone(), pos_w: pc.pos_w };
+                                let fr = frames.clone();
+                                let out = crate::sched::in_shuttle(move || {
+                                    let mut t = Guarded::new(AnyTrk::new(&c2));
+                                    let mut res: Vec<(usize, String, String)> = vec![];
+                                    let (mut n, mut far) = (0u64, 0u64);
+                                    for (k, dets) in fr.iter().enumerate() {
+                                        let pre = t.all_stored(false, c2.shards);
+                                        let recs = t.predict(0, dets);
+                                        n += 1;
+                                        for (r, d) in recs.iter().zip(dets.iter()) {
+                                            if let Some(tk) = pre.iter().find(|x| x.id == r.id) {
+                                                if assoc_dist(d, tk) > 1.0 {
+                                                    far += 1;
+                                                }
+                                                if compatible(&pc2, d, 0, k + 1, tk) == Some(false) {
+                                                    res.push((k, "constraints/continued-constraint-violated".into(), format!("[appearance re-attachment] detection at {:.3} x (R_det + R_track) from track {} (epoch gap {}) was attached; table {:?}", assoc_dist(d, tk), tk.id, (k + 1).saturating_sub(tk.last_epoch), c2.constraints)));
+                                                }
+                                            }
+                                        }
+                                    }
+                                    (res, n, far)
+                                });
+                                match out {
+                                    Ok((res, n, far)) => {
+                                        vcalls += n;
+                                        far_continuations += far;
+                                        for (k, key, what) in res {
+                                            rep.violation(Violation { key, what, replay: json!({"part":"trackers, appearance re-attachment","config":cfg.json(),"jumps":[j1,j2],"missed_frame":miss,"failing_frame":k}) });
+                                        }
+                                    }
+                                    Err(e) => rep.violation(Violation { key: format!("{}/panic-or-deadlock", kind.name()), what: e.chars().take(300).collect(), replay: json!({"part":"trackers, appearance re-attachment","config":cfg.json()}) }),
+                                }
+                            }
+                        }
+                    }
+                }
+            }
+        }
+        calls.fetch_add(vcalls, std::sync::atomic::Ordering::Relaxed);
+        rep.extra("appearance_reattachment_calls", json!(vcalls));
+        rep.extra("continuations_beyond_touching_circles_seen", json!(far_continuations));
     }
     let c = calls.load(std::sync::atomic::Ordering::Relaxed);
     rep.add(c, c, c, 0);
